@@ -522,6 +522,14 @@ func (p *plugin) synchronize(ctx context.Context, pods []*PodSandbox, containers
 				ctrsPerMsg = len(ctrsToSend)
 			}
 
+			// a count scaled down to zero would never advance its list
+			if podsPerMsg == 0 && len(podsToSend) > 0 {
+				podsPerMsg = 1
+			}
+			if ctrsPerMsg == 0 && len(ctrsToSend) > 0 {
+				ctrsPerMsg = 1
+			}
+
 			log.Debugf(ctx, "oversized message, retrying in smaller chunks")
 		}
 	}
